@@ -40,8 +40,8 @@ claimed = {
          "Real/Int arithmetic; automatic harvest, automatic N and the crop switch are outside.", "A3 C16"),
  "C18": ("Assignment part of ReadCropParamYml lifted; for every overridable base, stage and partition parameter: state after file+override equals state after reading the edited parameter set, or equals the no-override state (rejected as a whole).",
          "yaml.Unmarshal replaced by an arbitrary parameter set with 2 organs x 2 stages; 'results' reduced to the parameter state handed to the crop model.", "A3 C18"),
- "C13": ("Paired readers executed on the same content in both encodings, with every number symbolic (numeric tokens or symbolic decimal digits): the three weather layouts give the same year in the run state after LoadYear (daily values, year length, station and wind height); soil profile text vs CSV give the same SoilFileData (any CSV column order); measured initial values text vs CSV give the same initial water/N state (both header spellings, methods 1-3); rotation text vs CSV resolve every column to the same field text; a date in the four formats gives the same day number.",
-         "bufio.Scanner / time.Parse / Session.Open are executor models (line lists stand for files; natively the real files are written and read by the real code); crop parameters classic vs YAML (converter, yaml library) are outside; 'byte-identical results' is reduced to 'identical state handed to the model'.", "A3 C13"),
+ "C13": ("Paired readers executed on the same content in both encodings, with every number symbolic (numeric tokens or symbolic decimal digits): the three weather layouts give the same year in the run state after LoadYear (daily values, year length, station and wind height); soil profile text vs CSV give the same SoilFileData (any CSV column order); measured initial values text vs CSV give the same initial water/N state (both header spellings, methods 1-3); rotation text vs CSV resolve every column to the same field text; a classic crop parameter file read directly and read through the shipped converter plus the YAML reader's assignment part gives the same crop state; a date in the four formats gives the same day number.",
+         "bufio.Scanner / time.Parse / Session.Open are executor models (line lists stand for files; natively the real files are written and read by the real code); the YAML text between converter and reader (yaml.Marshal/Unmarshal) is taken as the identity; 'byte-identical results' is reduced to 'identical state handed to the model'.", "A3 C13"),
  "C14": ("readConfig / commandlineOverride (real code) executed symbolically with every scalar key of Config present or absent on the batch line under its own symbolic boolean and with a symbolic value, a configuration file that exists or not and sets an arbitrary subset of the keys to arbitrary values, and a key that does not exist: for every key the effective value (and the run state derived from it) is the batch-line value, else the file value, else the default; ascending and descending map iteration order; token loop of Run lifted: key=value tokens in 16 orders with symbolic digits give the value used.",
          "reflect is the executor's own model of the subset used (DESIGN A1); yaml.Unmarshal is replaced by a harness model that writes the planned keys through reflect and the real UnmarshalYAML methods; co-simulated against the real yaml/reflect libraries on solver models; string keys from four candidate families.", "A3 C14"),
  "C09": ("Reduced to the parts of PhytoOut that can be cut out as regions: the development stage index never decreases, advances by at most one and only when the stage's temperature sum is reached, never beyond the last stage, and records the phenology day; the rooting depth after a day is within the profile and the soil's root limit for any value of the root function.",
